@@ -81,7 +81,7 @@ def gen_cases(rng, n):
 
 def run(ctx):
     rng = random.Random(ctx["seed"])
-    n = 4000 if ctx["tier"] == "thorough" else 150
+    n = 4000 if ctx["tier"] == "thorough" else 300
     cases = simcheck.load_corpus("C15") + gen_cases(rng, n)
     results = simcheck.run_cases(ctx, "harness.props.c15", cases)
     res = simcheck.summarise(ctx, cases, results,
